@@ -204,18 +204,20 @@ H = Harness(
 
 # ------------------------------------------------------------------------------ inheritance
 def inh_params(tier):
-    return [P("variant", 0, 7), P("leave", 0, 1), P("falsy", 0, 1)]
+    return [P("variant", 0, 8), P("leave", 0, 1), P("falsy", 0, 1), P("under", 0, 1)]
 
 
 @guard
 def inh_fn(a, tier):
-    variant, leave_exc, falsy = pick(a["variant"], 8), pick(a["leave"], 2), pick(a["falsy"], 2)
+    variant, leave_exc, falsy = pick(a["variant"], 9), pick(a["leave"], 2), pick(a["falsy"], 2)
+    under = pick(a["under"], 2)  # the whole scenario runs inside one more (root) context: `outer` is then a nested, non-root context
     problems = []
     names = ["service task", "task factory task (start_task)", "task factory task (start_task_soon from a nested context)", "component prepare()/start()",
              "task of a factory started through the owner's METHOD while a nested context was current, spawned after that context was left",
              "service task started through the owner's METHOD while a nested context was current",
              "two independent applications in sibling tasks that inherited no context, and an uninvolved observer task",
-             "component prepare()/start() at nesting depth 2 (a component whose start() itself calls start_component)"]
+             "component prepare()/start() at nesting depth 2 (a component whose start() itself calls start_component)",
+             "a fire-and-forget task spawned inside a block into an OUTER task group, looking at its current context after the block was left (and nobody else references that context)"]
 
     class Batch(Context):
         """A context that is also a (currently empty) container: falsy."""
@@ -264,9 +266,48 @@ def inh_fn(a, tier):
         if not seen.get("two_inside"):
             problems.append(("independent-application-own-context", ""))
 
+    async def straggler():
+        import gc
+
+        seen = {}
+        gate = anyio.Event()
+
+        async def job():
+            seen["at_start"] = id(cur()) if cur() is not None else None
+            await gate.wait()
+            gc.collect()
+            c = cur()
+            seen["later"] = (id(c), c.closed) if c is not None else None
+            inner = Context()
+            seen["parent_id"] = id(inner.parent) if inner.parent is not None else None
+
+        async with anyio.create_task_group() as tg:
+            async with (Batch() if falsy else Context()) as request:
+                seen["request_id"] = id(request)
+                tg.start_soon(job)
+                await anyio.sleep(0)
+            del request
+            gc.collect()
+            gate.set()
+        if seen.get("at_start") != seen["request_id"]:
+            problems.append(("spawned-task-did-not-inherit-the-context-current-where-it-was-spawned", repr(seen)))
+        elif seen.get("later") != (seen["request_id"], True) or seen.get("parent_id") != seen["request_id"]:
+            problems.append(("task-lost-its-inherited-context-after-the-spawning-block-was-left", repr(seen)))
+
     async def main():
+        if under:
+            async with Context():
+                await main_()
+        else:
+            await main_()
+
+    async def main_():
         if variant == 6:
-            await independent_apps()
+            if not under:
+                await independent_apps()
+            return
+        if variant == 8:
+            await straggler()
             return
         async with (Batch() if falsy else Context()) as outer:
             if cur() is not outer:
@@ -366,7 +407,7 @@ def inh_fn(a, tier):
                     problems.append(("component-context-restore", f"{seen}"))
                 if cur() is not outer:
                     problems.append(("after-start_component", ""))
-        if cur() is not None:
+        if cur() is not None and not under:
             problems.append(("after-root-exit", ""))
 
     class Marker:
@@ -374,7 +415,8 @@ def inh_fn(a, tier):
 
     _, exc, _k = run(main)
     summary = {"site": names[variant], "inner_block_left_by": "exception" if leave_exc else "return",
-               "outer_context": "a falsy Context subclass (an empty container)" if falsy else "Context"}
+               "outer_context": "a falsy Context subclass (an empty container)" if falsy else "Context",
+               "everything_inside_one_more_root_context": bool(under)}
     if exc is not None:
         return FAIL(f"raised:{type(exc).__name__}", repr(exc), summary)
     if problems:
